@@ -812,7 +812,7 @@ class TextXMetaModel(DebugPrinter):
 
         cached_models = self._cached_model_ids()
 
-        if not model:
+        if model is None:
             # Read model from file
             if not model_str:
                 with open(file_name, encoding=encoding) as f:
